@@ -7,6 +7,7 @@ import (
 	"path/filepath"
 	"strconv"
 	"strings"
+	"time"
 
 	"github.com/modernizing/coca/pkg/application/call"
 	"github.com/modernizing/coca/pkg/domain/api_domain"
@@ -51,7 +52,9 @@ var Check = &run.Check{
 		}
 		return 300
 	},
-	Run: runCase,
+	Run:                 runCase,
+	CaseWatchdog:        30 * time.Second, // a case takes milliseconds
+	WatchdogIsViolation: true,             // termination clause of the statement
 }
 
 func hasCycleOrShare(cr *oracle.CallRel, root string) bool {
@@ -113,10 +116,10 @@ func checkDot(o *run.Outcome, what, dot string) ([]obs.Edge, bool) {
 
 func runCase(c *run.Ctx, o *run.Outcome) {
 	r := c.Rng
-	m := modelgen.Generate(r.Fork(), modelgen.Opts{MaxClasses: 8, MaxMethods: 40, MaxOut: 6, Quotes: true})
+	m := modelgen.Generate(r.Fork(), modelgen.Opts{MaxClasses: 8, MaxMethods: 40, MaxOut: 6, Quotes: true, DefaultPkg: true})
 	if r.Chance(1, 2) {
 		// half of the cases are small, so that trees that fit the budget are well represented
-		m = modelgen.Generate(r.Fork(), modelgen.Opts{MaxClasses: 4, MaxMethods: 9, MaxOut: 3, Quotes: true})
+		m = modelgen.Generate(r.Fork(), modelgen.Opts{MaxClasses: 4, MaxMethods: 9, MaxOut: 3, Quotes: true, DefaultPkg: true})
 	}
 	deps := common.ToCoca(m)
 	o.Count("methods", len(m.Methods()))
